@@ -386,7 +386,7 @@ def environment_replay(payload):
 def run(ctx):
     from ..runner import ENVIRONMENTS, EnvironmentRuns
 
-    envruns = EnvironmentRuns(MOD, "env_work", ctx.base(), ("python-O", "PYTHONOPTIMIZE=2"))
+    envruns = EnvironmentRuns(MOD, "env_work", ctx.base(), ("python-O", "PYTHONOPTIMIZE=2", "user-units-defaultdict"))
     acc = Acc.merged(ctx.pool.shards(MOD, "work", ctx.base(), nshards=ctx.pool.n * 4) + envruns.results())
     cov = {
         "evaluations": acc.evaluations,
